@@ -220,6 +220,84 @@ def run_protocol(trace):
     return ok(nontrivial=during_do, labels=["protocol"])
 
 
+# ----------------------------------------------------------------------------- restart-while-busy part
+class Tracking(Blocking):
+    def __init__(self):
+        super().__init__()
+        self.mu = threading.Lock()
+        self.active = 0
+        self.max_active = 0
+
+    def do(self):
+        with self.mu:
+            self.active += 1
+            self.max_active = max(self.max_active, self.active)
+        try:
+            super().do()
+        finally:
+            with self.mu:
+                self.active -= 1
+
+
+def gen_restart(d, tier):
+    return {"cfg": {}, "acts": [["busy_restart", d.choice(("released_before_restart", "still_busy", "still_busy")), d.int(0, 2)]]}
+
+
+def run_restart(trace):
+    """start; a non-waiting, non-final stop arrives while do() is executing; the application calls start() again --
+    either after the old worker was released (legitimate restart) or while it is still inside do() (start() waits
+    1 s for it and must then either refuse or at least never run the work function on two threads); finally a final
+    waiting stop.  Whatever start() answered: do() never runs concurrently with itself, nothing runs after the final
+    stop has returned, cleanup ran exactly once."""
+    _, mode, extra_starts = trace["acts"][0]
+    r = Tracking()
+    accepted = refused = 0
+    try:
+        r.start(sleep=0.0005)
+        r.block_next = True
+        r.wake()
+        if not r.in_do.wait(5):
+            return ok(labels=["inconclusive"])
+        r.in_do.clear()
+        r.stop(forever=False, wait=False)
+        if mode == "released_before_restart":
+            r.release.set()
+            r.wait(timeout=5)
+        for _ in range(1 + extra_starts):
+            try:
+                r.start(sleep=0.0005)
+                accepted += 1
+            except RuntimeError:
+                refused += 1
+        r.release.set()
+        time.sleep(0.02)
+        r.stop(forever=True, wait=True)
+        t0 = time.time()
+        while r.active and time.time() - t0 < 5:
+            time.sleep(0.001)
+        time.sleep(0.02)
+        calls = r.calls
+        time.sleep(0.01)
+        if r.max_active > 1:
+            return violation("one_worker", "do() ran on %d threads at once (start() while the previous worker was still inside do(): accepted %d, refused %d)" % (r.max_active, accepted, refused))
+        if r.calls != calls:
+            return violation("no_call_after_stop", "do() was called after the final stop returned (%d -> %d)" % (calls, r.calls))
+        # the final stop hit a running service only if a restart was accepted; a refused restart leaves a service that
+        # already stopped non-finally, for which no cleanup is due
+        want = (1,) if (mode == "released_before_restart" and accepted) else (0, 1)
+        if r.dones not in want:
+            return violation("cleanup_exactly_once", "done() ran %d times (restart %s: accepted %d, refused %d)" % (r.dones, mode, accepted, refused))
+    except TimeoutError:
+        return ok(labels=["inconclusive"])
+    finally:
+        try:
+            r.release.set()
+            r.stop(forever=True, wait=False)
+        except Exception:
+            pass
+    return ok(nontrivial=True, labels=["restart:" + mode, "restart_accepted" if accepted else "restart_refused"])
+
+
 # ----------------------------------------------------------------------------- notifications part
 def gen_notify(d, tier):
     n = d.int(1, 12)
@@ -261,11 +339,12 @@ def run_notify(trace):
     return ok(nontrivial=nt, labels=["notify", "threaded" if trace["cfg"]["threaded"] else "inthread"])
 
 
-PARTS = {"protocol": (gen_protocol, run_protocol), "notify": (gen_notify, run_notify)}
+PARTS = {"protocol": (gen_protocol, run_protocol), "notify": (gen_notify, run_notify), "restart": (gen_restart, run_restart)}
 
 
 def budget(tier):
     q = tier == "quick"
     return [{"workers": 16, "examples": 600 if q else 30000},
             {"part": "protocol", "workers": 16, "examples": 40 if q else 1500},
-            {"part": "notify", "workers": 16, "examples": 120 if q else 5000}]
+            {"part": "notify", "workers": 16, "examples": 120 if q else 5000},
+            {"part": "restart", "workers": 16, "examples": 3 if q else 40}]
